@@ -14,6 +14,8 @@ type SpecCtx struct {
 	vars   map[string]Val
 	lookup func(name string) (Val, bool)
 	old    map[string]string // heap for old(); nil = current
+	entry  map[string]string // heap at the first arrival at the loop head (loop invariants)
+	entryCells map[int]Val
 	pkg    *types.Package
 	what   string // for error messages
 	trig   bool   // evaluating a trigger term: no boolean structure allowed
@@ -116,6 +118,9 @@ func (c *SpecCtx) withHeap(h map[string]string, f func() Val) Val {
 		}
 	}
 	s.heap, s.epoch, s.stale = tmp, epoch, stale
+	savedShadow := s.shadow
+	s.shadow = nil // structurally known contents describe the current heap only
+	defer func() { s.shadow = savedShadow }()
 	savedOld := c.old
 	c.old = nil
 	defer func() {
@@ -304,6 +309,11 @@ func (c *SpecCtx) ident(name string) Val {
 	if v, ok := c.vars[name]; ok {
 		return v
 	}
+	if name == "bempty" {
+		c.s.e.needBytes()
+		c.s.groups["bytes"] = true
+		return Val{T: "bempty", Ty: specBytes}
+	}
 	if c.lookup != nil {
 		if v, ok := c.lookup(name); ok {
 			return v
@@ -374,6 +384,11 @@ func (c *SpecCtx) field(v Val, name string) Val {
 		path, _ := findField(v.Ty, name)
 		if path == nil {
 			c.fail("no field %s in %v", name, v.Ty)
+		}
+		if len(path) == 1 {
+			if sv, ok := v.Sub[path[0]]; ok && sv.T != "" {
+				return sv
+			}
 		}
 		t, ty := s.project(v.T, v.Ty, path)
 		return Val{T: t, Ty: ty}
@@ -591,6 +606,27 @@ func (c *SpecCtx) call(x *SCall) Val {
 			return arg(0)
 		}
 		return c.withHeap(c.old, func() Val { return c.eval(x.Args[0]) })
+	case "entry":
+		// loop invariants: the value of the expression when the loop was first reached
+		if c.entry == nil {
+			c.fail("entry() outside a loop invariant")
+		}
+		saved := s.cells
+		if c.entryCells != nil {
+			// local variables too have their value of the first arrival (cells created since keep their current value)
+			tmp := make(map[int]Val, len(saved))
+			for k, v := range saved {
+				tmp[k] = v
+			}
+			for k, v := range c.entryCells {
+				if s.promoted[k] == "" {
+					tmp[k] = v
+				}
+			}
+			s.cells = tmp
+		}
+		defer func() { s.cells = saved }()
+		return c.withHeap(c.entry, func() Val { return c.eval(x.Args[0]) })
 	case "len":
 		v := arg(0)
 		switch v.Ty.Underlying().(type) {
@@ -626,6 +662,10 @@ func (c *SpecCtx) call(x *SCall) Val {
 		}
 		if it, ok := t.Underlying().(*types.Interface); ok {
 			return bval(e.implements("(i_tag "+v.T+")", it))
+		}
+		if v.Dyn != nil {
+			// the dynamic type is pinned on this path
+			return bval(fmt.Sprint(types.Identical(v.Dyn, t)))
 		}
 		return bval(fmt.Sprintf("(= (i_tag %s) %d)", v.T, e.typeTag(t)))
 	case "tag":
@@ -725,6 +765,12 @@ func (c *SpecCtx) call(x *SCall) Val {
 			bk = types.Uint8
 		}
 		return ival(e.wrap(types.Typ[bk], c.evalInt(x.Args[0])))
+	case "unix":
+		e.needTime()
+		return ival("(time_unix " + arg(0).T + ")")
+	case "utc":
+		e.needTime()
+		return Val{T: "(time_utc (time_of " + arg(0).T + "))", Ty: e.timeType()}
 	case "bcat", "btake", "bdrop", "blen", "le1", "le2", "le4", "le8", "dec1", "dec2", "dec4", "dec8", "sbytes", "mkstr":
 		e.needBytes()
 		s.groups["bytes"] = true
@@ -861,6 +907,13 @@ func (c *SpecCtx) call(x *SCall) Val {
 		if len(as) != len(sf.PTypes) {
 			c.fail("%s: wrong number of arguments", x.Fn)
 		}
+		if len(sf.Reads) > 0 {
+			var hs []string
+			for i, id := range sf.Reads {
+				hs = append(hs, s.heapTerm(id, sf.RSorts[i]))
+			}
+			as = append(hs, as...)
+		}
 		return Val{T: app(sf.Sym, as...), Ty: sf.Ret}
 	}
 	// conversion to a named type
@@ -887,8 +940,15 @@ func (e *Engine) declareSpecFunc(sf *SpecFunc) {
 	for _, t := range sf.PTypes {
 		ps = append(ps, e.sortOf(t))
 	}
+	for _, id := range sf.Reads {
+		so := e.heapSortFromID(id)
+		if so == "" {
+			panic(specError{"pure function " + sf.Name + ": unknown heap " + id})
+		}
+		sf.RSorts = append(sf.RSorts, so)
+	}
 	if sf.Body == nil {
-		e.d.add("specfn:"+sf.Name, fmt.Sprintf("(declare-fun %s (%s) %s)", sf.Sym, strings.Join(ps, " "), e.sortOf(sf.Ret)))
+		e.d.add("specfn:"+sf.Name, fmt.Sprintf("(declare-fun %s (%s) %s)", sf.Sym, strings.Join(append(append([]string{}, sf.RSorts...), ps...), " "), e.sortOf(sf.Ret)))
 		if isIntTy(sf.Ret) {
 			if _, ok := isSpec(sf.Ret); !ok {
 				// typed integer result: range axiom
@@ -899,8 +959,13 @@ func (e *Engine) declareSpecFunc(sf *SpecFunc) {
 	// defined function: evaluate body in a heap-free context
 	st := e.newState()
 	st.noNames = true
+	st.bind = &heapBind{}
 	ctx := &SpecCtx{s: st, vars: map[string]Val{}, pkg: sf.Pkg, what: "pure " + sf.Name}
 	var binders []string
+	for i, id := range sf.Reads {
+		binders = append(binders, "("+st.heapTerm(id, sf.RSorts[i])+" "+sf.RSorts[i]+")")
+	}
+	nReads := len(sf.Reads)
 	for i, p := range sf.Params {
 		n := "a_" + sanitize(p[0])
 		binders = append(binders, "("+n+" "+ps[i]+")")
@@ -909,8 +974,11 @@ func (e *Engine) declareSpecFunc(sf *SpecFunc) {
 	body := ctx.eval(sf.Body)
 	for _, c := range st.cmds {
 		if strings.HasPrefix(c, "(declare-const") {
-			panic(specError{"pure function " + sf.Name + " reads the heap"})
+			panic(specError{"pure function " + sf.Name + " depends on program state"})
 		}
+	}
+	if len(st.bind.ids) > nReads {
+		panic(specError{"pure function " + sf.Name + " reads heaps not listed in its reads clause: " + strings.Join(st.bind.ids[nReads:], " ")})
 	}
 	e.d.add("specfn:"+sf.Name, fmt.Sprintf("(define-fun %s (%s) %s %s)", sf.Sym, strings.Join(binders, " "), e.sortOf(sf.Ret), st.term(body)))
 }
